@@ -290,7 +290,7 @@ func gen(args []string) {
 	tb := []int{0, 1, 59, 127, 128, 255}
 	for _, d := range []int{0, 1, 16, 127, 128, 255} { // locate: devices x boundary time codes
 		for i := 0; i < 6*6*6*6*6; i++ {
-			if !*full && i%7 != 0 && d != 1 {
+			if !*full && i%13 != 0 {
 				continue
 			}
 			add("mmc.goto", []int{d, tb[i%6], tb[(i/6)%6], tb[(i/36)%6], tb[(i/216)%6], tb[(i/1296)%6]}, nil, true)
@@ -319,6 +319,9 @@ func gen(args []string) {
 		}
 		for ch := 0; ch < 16; ch++ {
 			for p := 0; p < 128; p++ {
+				if !*full && (p+ch)%4 != 0 {
+					continue
+				}
 				add(h, []int{ch, p}, nil, true)
 			}
 		}
